@@ -12,7 +12,7 @@ ID = "C04"
 LEVEL = "exploration"
 RULE = (
     "(a) histories: a case is (definition, loop bound, complete set or "
-    "subset, a drawn order of the jobs, split points cutting it into 2-3 "
+    "subset, a job name (some with spaces), a drawn order of the jobs, split points cutting it into 2-3 "
     "non-empty consecutive chunks - ALL split points when the set has <=6 "
     "jobs - schedule seed). Every chunk is a separate call of the real "
     "dispatcher otel_to_puml(components='pv2puml') on job files with "
@@ -57,9 +57,10 @@ def run_dispatch(files, outdir, name, model_in=None):
     with contextlib.redirect_stdout(io.StringIO()):     # tqdm.write chatter
         otel_to_puml(pv_to_puml_options=opts, global_options=glob,
                      output_file_directory=outdir, components="pv2puml")
-    with open(os.path.join(outdir, f"{name}.puml")) as f:
+    stem = name.replace(" ", "_")
+    with open(os.path.join(outdir, f"{stem}.puml")) as f:
         text = f.read()
-    return text, os.path.join(outdir, f"{name}_model.json")
+    return text, os.path.join(outdir, f"{stem}_model.json")
 
 
 def model_of_file(path):
@@ -124,7 +125,8 @@ def run_history(case, ctx=None):
         chunks.append(jobs[prev:c])
         prev = c
     chunks = [c for c in chunks if c]
-    pv = [[learn.job_to_pv(j, "wf", rng=rng) for j in ch] for ch in chunks]
+    wf = case.get("name", "wf")
+    pv = [[learn.job_to_pv(j, wf, rng=rng) for j in ch] for ch in chunks]
     if ctx:
         # event types with a fork/loop behind them that do not recur in the
         # last chunk
@@ -137,6 +139,8 @@ def run_history(case, ctx=None):
         has_fork = any(isinstance(x, (ps.Fork, ps.Loop))
                        for x in ps.walk(m.ast))
         cl = pvcase.case_classes(case, m) + [f"chunks={len(chunks)}"]
+        if " " in wf:
+            cl.append("job_name_with_space")
         if absent:
             cl.append("fork_event_absent_from_last_chunk")
         ctx.record(case, len(chunks) >= 2 and has_fork and absent, cl,
@@ -150,7 +154,7 @@ def run_history(case, ctx=None):
         os.makedirs(d0)
         files = write_jobs(d0, [j for ch in pv for j in ch], "job")
         r_all = guarded(run_dispatch, files, os.path.join(tmp, "out_all"),
-                        "wf")
+                        wf)
         # chunked
         model_in = None
         r_last = None
@@ -160,7 +164,7 @@ def run_history(case, ctx=None):
             files = write_jobs(di, ch, "job")
             learn.SCHED.reseed(case["sched"] + i + 1)
             r_last = guarded(run_dispatch, files,
-                             os.path.join(tmp, f"out{i}"), "wf", model_in)
+                             os.path.join(tmp, f"out{i}"), wf, model_in)
             if r_last[0] != "ok":
                 break
             model_in = r_last[1][1]
@@ -180,7 +184,7 @@ def run_history(case, ctx=None):
         text_inc, model_inc = r_last[1]
         n0, m0 = model_of_file(model_all)
         n1, m1 = model_of_file(model_inc)
-        if n0 != "wf" or n1 != "wf":
+        if n0 != wf or n1 != wf:
             raise Violation(f"model files carry job names {n0!r}, {n1!r}")
         if m0 != m1:
             bad = sorted(t for t in set(m0) | set(m1)
@@ -292,6 +296,8 @@ def strategies():
         c = draw(pvcase.cases(max_events=draw(st.integers(4, 12))))
         c["splits"] = sorted(set(draw(st.lists(st.integers(1, 59),
                                                min_size=1, max_size=2))))
+        c["name"] = draw(st.sampled_from(["wf", "wf", "pay ments", "x.y",
+                                          "a b c"]))
         return c
 
     names = st.sampled_from(["A", "B", "C", "D", "E F", "G.h"])
